@@ -213,6 +213,35 @@ theorem syncInv_runTasks {wf : Wf} (fail : Ck → Bool) : ∀ (js : List Job) {s
         obtain ⟨a, b, c⟩ := syncInv_runTasks fail js hs' (fun j' hj' => hl j' (by simp [hj'])) h
         exact ⟨a, b, c⟩
 
+/-- ... and when a body raises, the state at that moment still satisfies the invariant; the raising body itself
+    had not run before -/
+theorem syncInv_runTasks_err {wf : Wf} (fail : Ck → Bool) : ∀ (js : List Job) {st st' : St} {c : Ck},
+    SyncInv wf st → (∀ j, j ∈ js → TaskLegit st.ns j) → runTasks fail st js = .error (c, st') →
+    SyncInv wf st' ∧ st'.w c ≠ .ok
+  | [], st, st', c, _, _, h => by simp [runTasks] at h
+  | j :: js, st, st', c, hs, hl, h => by
+    simp only [runTasks] at h
+    split at h
+    · exact syncInv_runTasks_err fail js hs (fun j' hj' => hl j' (by simp [hj'])) h
+    · rename_i hnok
+      split at h
+      · simp only [Except.error.injEq, Prod.mk.injEq] at h
+        obtain ⟨rfl, rfl⟩ := h
+        exact ⟨hs, by simpa using hnok⟩
+      · -- the body of `j` ran successfully: same step as in `syncInv_runTasks`, then go on
+        have hstep : ∃ st1, runTasks fail st [j] = .ok st1 ∧
+            st1 = { st with w := setW st.w (ckOf st j) .ok, futured := st.futured ++ [ckOf st j] } := by
+          refine ⟨_, ?_, rfl⟩
+          simp only [runTasks]
+          rw [if_neg hnok]
+          rename_i hnf
+          rw [if_neg hnf]
+        obtain ⟨st1, h1, rfl⟩ := hstep
+        obtain ⟨a, b, _⟩ := syncInv_runTasks fail [j] hs (fun j' hj' => by
+          simp at hj'; subst hj'; exact hl j' (by simp)) h1
+        exact syncInv_runTasks_err fail js a (fun j' hj' => by
+          show TaskLegit st.ns j'; exact hl j' (by simp [hj'])) h
+
 /-- the state in which `syncLoop` stops satisfies the invariant, except that after a raising body the world
     additionally records that body's failure (nothing is executed afterwards) -/
 theorem syncLoop_spec {wf : Wf} {k : Option Nat} {sorted : List NodeId} (ht : TopoOrder wf sorted)
@@ -238,49 +267,16 @@ theorem syncLoop_spec {wf : Wf} {k : Option Nat} {sorted : List NodeId} (ht : To
       obtain ⟨_, rfl⟩ := h
       exact ⟨hgo.logOrd, hgo.nodup, fun c hc => (hgo.ranOk c).mp hc⟩
     · split at h
-      · rename_i c hc
+      · rename_i c st1 hc
         simp only [Prod.mk.injEq] at h
         obtain ⟨_, rfl⟩ := h
-        -- the body of `c` raised: it was idle, and is now recorded as failed; the log is unchanged
-        refine ⟨hgo.logOrd, hgo.nodup, ?_⟩
+        obtain ⟨a, hnok⟩ := syncInv_runTasks_err fail _ hgo hgo.tasksLegit hc
+        -- the body of `c` raised: it is now recorded as failed; the log is unchanged
+        refine ⟨a.logOrd, a.nodup, ?_⟩
         intro x hx
-        have hxok := (hgo.ranOk x).mp hx
+        have hxok := (a.ranOk x).mp hx
         by_cases hxc : x = c
-        · -- impossible: `c` was not ok when its body was started; we do not need it: show via setW
-          subst hxc
-          exfalso
-          -- a raising body was reached only because its truth was not `ok`
-          have : ∀ (js : List Job) (s : St), (∀ y, y ∈ s.futured → s.w y = .ok) → runTasks fail s js = .error x →
-              s.w x ≠ .ok ∨ x ∉ s.futured := by
-            intro js
-            induction js with
-            | nil => intro s _ h; simp [runTasks] at h
-            | cons j js ih =>
-              intro s hsok h
-              simp only [runTasks] at h
-              split at h
-              · exact ih s hsok h
-              · rename_i hn
-                split at h
-                · simp only [Except.error.injEq] at h
-                  left; rw [← h]; simpa using hn
-                · have := ih _ (by
-                    intro y hy
-                    simp only at hy ⊢
-                    rcases List.mem_append.mp hy with hy | hy
-                    · by_cases hyc : y = ckOf s j
-                      · subst hyc; simp [setW_same]
-                      · rw [setW_ne _ _ hyc]; exact hsok y hy
-                    · simp at hy; subst hy; simp [setW_same]) h
-                  simp only at this
-                  rcases this with h1 | h1
-                  · by_cases hxc : x = ckOf s j
-                    · subst hxc; simp [setW_same] at h1
-                    · left; rw [setW_ne _ _ hxc] at h1; exact h1
-                  · right; intro hm; exact h1 (List.mem_append_left _ hm)
-          rcases this _ _ (fun y hy => (hgo.ranOk y).mp hy) hc with h1 | h1
-          · exact h1 hxok
-          · exact h1 hx
+        · subst hxc; exact absurd hxok hnok
         · simp only [setW_ne _ _ hxc]; exact hxok
       · rename_i st1 hst1
         obtain ⟨a, _, _⟩ := syncInv_runTasks fail _ hgo hgo.tasksLegit hst1
